@@ -9,7 +9,7 @@ import (
 	"fmt"
 	"go/types"
 
-	"gosym/smt"
+	_ "gosym/smt"
 )
 
 type hashable interface {
@@ -158,7 +158,7 @@ func newOmapIter(m *omap) *omapIter {
 			cur.fresh++
 			name := fmt.Sprintf("maporder#%d", cur.fresh)
 			v := cur.newInput(name, types.Uint8).(sv)
-			cur.assume(smt.ULt(v.t, smt.Const(8, uint64(len(rest)))))
+			cur.assume(rangeTerm(v, len(rest)))
 			j := cur.concretizeIndex(v, len(rest))
 			perm = append(perm, rest[j])
 			rest = append(rest[:j], rest[j+1:]...)
